@@ -20,6 +20,12 @@
 (*                        Len(text) - i checked to decrease (termination). *)
 (* Every expanded state with pc = "run" prints its case and the expected   *)
 (* chunks on the CORPUS channel; the binding runs the real code on it.     *)
+(*                                                                         *)
+(* The transcription is of the splitter WITH its two repairs (a separator  *)
+(* that carries text stays as a prefix of the part it introduces;          *)
+(* mergeSplits re-checks the size after choosing the overlap tail): the    *)
+(* property holds for it without exception.  A tree without them fails the *)
+(* predicates the binding evaluates on the real output (VIOLATION).        *)
 (***************************************************************************)
 EXTENDS Integers, Sequences, FiniteSets, TLC, Json, SequencesExt
 
